@@ -3,7 +3,6 @@
 package agent
 
 import (
-	"github.com/postalsys/muti-metroo/internal/flood"
 	"github.com/postalsys/muti-metroo/internal/identity"
 	"github.com/postalsys/muti-metroo/internal/protocol"
 	"github.com/postalsys/muti-metroo/internal/sleep"
@@ -14,9 +13,6 @@ import (
 func (a *Agent) VerifProcessFrame(peerID identity.AgentID, frame *protocol.Frame) {
 	a.processFrame(peerID, frame)
 }
-
-// VerifFlooder exposes the agent's flooder (to install a recording sender).
-func (a *Agent) VerifFlooder() *flood.Flooder { return a.flooder }
 
 // VerifInitSleepManager creates the sleep manager the way Start does (same
 // configuration, data directory and local identity) without starting the
